@@ -9,6 +9,8 @@
     * `pointInterval_eq`          generated (k/sp) = collapse (MC.pointInterval … k sp)        all nxL nxR k, sp > 0
     * `pointInterval_eq_rat`      the same for an arbitrary `d : ℚ` (k = d.num, sp = d.den)
     * `pointInterval_eq_nonempty` where both model intervals are non-empty the two are equal as they stand
+    * `dspIndex_eq`, `dspIndex_toNat`  the sample index `dsp = int((disp - dmin) * self._subpix)` of cv_masked, regenerated
+      the same way, is the model's `(k - gmin * sp).toNat`
     * `pointInterval_mem_p` / `pointInterval_q_of_p`  what the model USES of the interval (membership of a left
       column, the right column facing it — `pixelWise`, `rawCensus`, `rawZncc`) is the same with or without the
       collapse, whenever the right interval is non-empty as well
@@ -24,6 +26,9 @@ import Mathlib.Tactic.Ring
 import Mathlib.Tactic.FieldSimp
 import Mathlib.Tactic.SplitIfs
 import Mathlib.Algebra.Order.Field.Basic
+
+set_option linter.unusedSimpArgs false
+set_option linter.unusedVariables false
 
 namespace Pandora.C02Kernels
 open Pandora Pandora.MC Pandora.PyExpr
@@ -88,14 +93,32 @@ theorem pointInterval_eq (nxL nxR k : Int) (sp : Nat) (hs : 0 < sp) :
   have q0 := rmax_div ((0 : ℚ) + (k : ℚ) / (sp : ℚ)) 0 (0 + k) 0 sp hs (by push_cast; ring) e0
   have q1 := rmin_div ((nxR : ℚ) + (k : ℚ) / (sp : ℚ)) nxR (nxR * sp + k) (nxR * sp) sp hs
     (by push_cast; field_simp) (by push_cast; field_simp)
+  -- the same four facts for the other ways of writing these operands (`-disp`, `disp`, swapped arguments): a rewrite of
+  -- the source that only does this keeps the proof; unused instances are harmless
+  have p0a := rmax_div (-((k : ℚ) / (sp : ℚ))) 0 (0 - k) 0 sp hs (by push_cast; ring) e0
+  have p0b := rmax_div 0 ((0 : ℚ) - (k : ℚ) / (sp : ℚ)) 0 (0 - k) sp hs e0 (by push_cast; ring)
+  have p0c := rmax_div 0 (-((k : ℚ) / (sp : ℚ))) 0 (0 - k) sp hs e0 (by push_cast; ring)
+  have p1a := rmin_div (nxL : ℚ) ((nxL : ℚ) - (k : ℚ) / (sp : ℚ)) (nxL * sp) (nxL * sp - k) sp hs
+    (by push_cast; field_simp) (by push_cast; field_simp)
+  have q0a := rmax_div ((k : ℚ) / (sp : ℚ)) 0 (0 + k) 0 sp hs (by push_cast; ring) e0
+  have q0b := rmax_div 0 ((0 : ℚ) + (k : ℚ) / (sp : ℚ)) 0 (0 + k) sp hs e0 (by push_cast; ring)
+  have q0c := rmax_div 0 ((k : ℚ) / (sp : ℚ)) 0 (0 + k) sp hs e0 (by push_cast; ring)
+  have q1a := rmin_div (nxR : ℚ) ((nxR : ℚ) + (k : ℚ) / (sp : ℚ)) (nxR * sp) (nxR * sp + k) sp hs
+    (by push_cast; field_simp) (by push_cast; field_simp)
   have hneg := div_neg_iff k sp hs
+  have hge : ((k : ℚ) / (sp : ℚ) ≥ 0) ↔ ¬ k < 0 := by rw [ge_iff_le, ← not_lt, hneg]
+  have hgt : ((0 : ℚ) > (k : ℚ) / (sp : ℚ)) ↔ k < 0 := hneg
+  have mc (a b : Int) : min a b = min b a := Int.min_comm a b
+  have xc (a b : Int) : max a b = max b a := Int.max_comm a b
   unfold Generated.KernelsGlue.pointInterval MC.pointInterval
-  simp only [p0, p1, q0, q1, rceil_div, rfloor_div, hneg]
+  simp only [p0, p1, q0, q1, p0a, p0b, p0c, p1a, q0a, q0b, q0c, q1a, rceil_div, rfloor_div, hneg, hge, hgt]
   by_cases hk : k < 0
-  · simp only [hk, decide_true, if_true, collapse, encPQ, Bool.or_eq_true, decide_eq_true_eq]
-    split_ifs <;> rfl
-  · simp only [hk, decide_false, if_false, collapse, encPQ, Bool.or_eq_true, decide_eq_true_eq, Bool.false_eq_true]
-    split_ifs <;> rfl
+  · simp only [hk, not_true_eq_false, decide_true, decide_false, if_true, if_false, collapse, encPQ, Bool.or_eq_true,
+      decide_eq_true_eq, Bool.false_eq_true, ite_true, ite_false]
+    split_ifs <;> first | rfl | (simp only [mc (nxL * sp), mc (nxR * sp), xc 0] at *; first | rfl | contradiction)
+  · simp only [hk, not_false_eq_true, decide_true, decide_false, if_true, if_false, collapse, encPQ, Bool.or_eq_true,
+      decide_eq_true_eq, Bool.false_eq_true, ite_true, ite_false]
+    split_ifs <;> first | rfl | (simp only [mc (nxL * sp), mc (nxR * sp), xc 0] at *; first | rfl | contradiction)
 
 /-- for an arbitrary rational disparity (the model is called on its reduced numerator and denominator) -/
 theorem pointInterval_eq_rat (nxL nxR : Int) (d : ℚ) :
@@ -132,6 +155,29 @@ theorem pointInterval_q_of_p (nxL nxR k : Int) (sp : Nat) (hs : 0 < sp) (c : Int
       = (MC.pointInterval nxL nxR k sp).q0 + (c - (MC.pointInterval nxL nxR k sp).p0) := by
   rw [pointInterval_eq_nonempty nxL nxR k sp hs (by omega) hq]
   rfl
+
+/-! ### the sample index of `cv_masked`: `dsp = int((disp - dmin) * self._subpix)` -/
+
+theorem rtrunc_intCast (z : Int) : rtrunc (z : ℚ) = z := by
+  unfold rtrunc
+  split_ifs
+  · exact Rat.ceil_intCast z
+  · exact Rat.floor_intCast z
+
+/-- **the translated sample index is the model's** (`cvMaskedLoop`: `dsp = (k - gmin * sp).toNat`): for the disparity
+    `k / sp` and an integer first disparity `gmin` the product is the integer `k - gmin * sp` exactly, which `int()`
+    leaves alone (no rounding is involved on the dyadic disparities of a cost volume) -/
+theorem dspIndex_eq (k gmin : Int) (sp : Nat) (hs : 0 < sp) :
+    Generated.KernelsGlue.dspIndex ((k : ℚ) / (sp : ℚ)) (gmin : ℚ) (sp : Int) = k - gmin * sp := by
+  have hs' : (sp : ℚ) ≠ 0 := by exact_mod_cast (Nat.pos_iff_ne_zero.mp hs)
+  have h : ((k : ℚ) / (sp : ℚ) - (gmin : ℚ)) * (((sp : Int) : ℚ)) = ((k - gmin * sp : Int) : ℚ) := by
+    push_cast; field_simp
+  unfold Generated.KernelsGlue.dspIndex
+  rw [h, rtrunc_intCast]
+
+theorem dspIndex_toNat (k gmin : Int) (sp : Nat) (hs : 0 < sp) (h : gmin * sp ≤ k) :
+    Generated.KernelsGlue.dspIndex ((k : ℚ) / (sp : ℚ)) (gmin : ℚ) (sp : Int) = ((k - gmin * sp).toNat : Int) := by
+  rw [dspIndex_eq k gmin sp hs]; omega
 
 /-- non-vacuity: half-pixel disparities of both signs, different widths, a disparity past the image -/
 example : Generated.KernelsGlue.pointInterval 5 6 ((3 : ℚ) / 2) = (0, 3, 1, 6) := by decide +kernel
